@@ -59,6 +59,22 @@ theorem link_bitflips (k n d tc : Nat) (hk : 0 < k) (hn : 0 < n) (G : List Nat) 
   LinkProofs.link_bitflips k n d tc hk hn G t hb lo hpair dec chan msgs es gs' hm hes hcw hesn hdiv hgs' hflat hchan
     hrange hnear hd ht hw
 
+/-- **the executable channel** used by the driver and realised by the harness with a `LambdaChannel`
+(decide the transmitted symbols, flip the code bits marked by the per-block masks `es`, re-modulate,
+displace every symbol by less than half the minimum distance): with a decoder that corrects the
+patterns `es` the link returns the message — this discharges the channel hypothesis of
+`link_corrects` for the very function the correspondence runs -/
+theorem link_chanSub (k n : Nat) (hk : 0 < k) (hn : 0 < n) (G : List Nat) (t : Table) (hb : 0 < t.b) (lo : Int) (hlo : 0 < lo)
+    (hpair : t.pts.Pairwise (fun a b => lo ≤ dist2 a b.re b.im)) (hlab : labelsOk t = true)
+    (dec : Nat → Nat) (msgs : List (List Bool)) (es : List Nat) (ds : List (Int × Int))
+    (hm : ∀ b ∈ msgs, b.length = k) (hes : es.length = msgs.length)
+    (hcw : ∀ m, encode G m < 2 ^ n) (hesn : ∀ e ∈ es, e < 2 ^ n)
+    (hdiv : (msgs.length * n) % t.b = 0)
+    (hds : ds.length = msgs.length * n / t.b) (hsmall : ∀ d ∈ ds, 4 * (d.1 * d.1 + d.2 * d.2) < lo)
+    (hdec : ∀ m e, m < 2 ^ k → e ∈ es → dec (encode G m ^^^ e) = m) :
+    link k n G t dec (chanSub t ((es.map (bitsOf n)).flatten) ds) msgs.flatten = some msgs.flatten :=
+  LinkProofs.link_chanSub k n hk hn G t hb lo hlo hpair hlab dec msgs es ds hm hes hcw hesn hdiv hds hsmall hdec
+
 /-- **catalogue instances, ideal channel or bounded displacement**: every encoder of the C01
 catalogue with every constellation of the C14 catalogue, any decoder that is the identity on code
 words (the encoder's own inverse, or any nearest-codeword decoder), any channel that moves each
